@@ -26,6 +26,8 @@ def execute(case, prefix, seed):
     ch = grid.Chooser(prefix)
     g = grid.Grid(S, nclients=2, chooser=ch, fault_kinds=tuple(case.get("fault_kinds", ())), client_kw=dict(k=k, n=n, happy=1))
     g.sched.batch = bool(case.get("batch"))     # turn granularity, see grid.Sched.batch
+    if case.get("cpu"):
+        g.sched.cpu_events()     # thread-pool work completes as a scheduled event, see grid.Sched.cpu_events
     viol, obs = [], {}
     try:
         c = g.clients[0]
